@@ -1894,16 +1894,14 @@ def i_PINSRW(i, fmap):
     op3 = i.operands[2]
     if op2._is_reg:
         op2 = op2[0:16]
-    src1 = fmap(op1)
     src2 = fmap(op2)
     if op3._is_cst:
         # the word is selected by the low 2 (mmx) or 3 (xmm) bits of imm8
-        sel = op3.value % (src1.size // 16)
+        sel = op3.value % (op1.size // 16)
         sta, sto = sel * 16, sel * 16 + 16
-        src1[sta:sto] = src2
+        fmap[op1[sta:sto]] = src2
     else:
-        src1 = top(src1.size)
-    fmap[op1] = src1
+        fmap[op1] = top(op1.size)
 
 
 def i_PEXTRW(i, fmap):
